@@ -149,6 +149,21 @@ CHECKS["C08"] = dict(
         "opaque fields and 128-bit integers are not generated; one corner (2-scalar struct directly inside an aggregate with a union) is excluded. "
         "Trusted: Coq kernel+vm_compute, hand transcription, python spec, node.",
    design="§5 C08")
+CHECKS["C04"] = dict(
+   text="Proof: Lifetimes/Model.v transcribes LifetimeEnv construction (declared bounds, the &'a T<'b> rule with its already-longer test), "
+        "the stack+visited DFS behind all_longer_lifetimes, validate_ty_in_env for methods and struct definitions, and visit_param / borrow_map; "
+        "Lifetimes/Spec.v states Rust's outlives relation declaratively (declared + implied bounds, definition requirements as a least fixpoint "
+        "through nested fields). C04_borrow_edges_exact: for every accepted method and return lifetime the reported edges are exactly the "
+        "parameters / struct slots mentioning a lifetime forced to outlive it; with C04_all_longer_is_closure (DFS = closure, fuel always "
+        "suffices), C04_env_is_closure_of_written_bounds, C04_definition_bounds_are_recorded, C04_outlives_iff_recorded, C04_borrow_map_keys/entry. "
+        "Tied to the code per run: generated bridges go through the real TypeContext::from_syn and borrowing_param_visitor; acceptance and the "
+        "literal borrow_map are compared with the model in Coq, the edge sets with an independent python reading of Rust's rules, that reading "
+        "with rustc itself ((r,x) coercion probes), and the js/dart/kotlin/nanobind output is parsed for edge arrays, constructor arguments, "
+        "append arrays and struct accessors.",
+   note="Outside the statement: bounds rustc infers from an opaque's private fields, derivations through 'static (counted as "
+        "rustc_pairs_static_bridged), plain-object struct arguments in JS. Backend emission is checked on generated code, not modelled. "
+        "Known finding: a borrowed Option<slice> parameter panics.",
+   design="DESIGN.md §5 C04")
 NOT_YET = {
 }
 ALL = [f"C{i:02d}" for i in range(1, 18)]
